@@ -10,7 +10,28 @@ using namespace symt;
 template<int K> void reg_spin() {   // slerp with K extra spins (unit key K+3)
   add_unit(nm("slerpk", {K + 3}), 9, 4, [](auto const* x, auto* o) { stq(o, glm::slerp(ldq(x), ldq(x + 4), x[8], K)); });
 }
+template<class T> static bool unitq(T const* x, glm::qua<T, glm::defaultp>& q) {
+  T n = std::sqrt(x[0] * x[0] + x[1] * x[1] + x[2] * x[2] + x[3] * x[3]); if (!(n > T(0.3))) return false;
+  q = glm::qua<T, glm::defaultp>::wxyz(x[0] / n, x[1] / n, x[2] / n, x[3] / n); return true; }
 int main(int argc, char** argv) {
+  // slerp: unit length, angle from x equal to t times the angle between x and +-y, for t in [-2, 3]
+  add_prop("p_slerp", 9, 5e-3, 1e-6, [](auto const* x) { using T = TY(x); glm::qua<T, glm::defaultp> a, b; if (!unitq(x, a) || !unitq(x + 4, b)) return T(-1);
+    T t = x[8] * T(1.25) + T(0.5); auto s = glm::slerp(a, b, t);
+    T c = std::abs(glm::dot(a, b)); if (c > T(1)) c = T(1); T th = std::acos(c);
+    T r1 = std::abs(glm::length(s) - T(1)); T r2 = std::abs(glm::dot(a, s) - std::cos(t * th));
+    return std::max(r1, r2); });
+  // slerp(x, y, t) = +-slerp(y, x, 1 - t)
+  add_prop("p_slerp_sym", 9, 5e-3, 1e-6, [](auto const* x) { using T = TY(x); glm::qua<T, glm::defaultp> a, b; if (!unitq(x, a) || !unitq(x + 4, b)) return T(-1);
+    T t = x[8] * T(0.25) + T(0.5); auto s1 = glm::slerp(a, b, t), s2 = glm::slerp(b, a, T(1) - t);
+    T d1 = std::max(std::max(std::abs(s1.w - s2.w), std::abs(s1.x - s2.x)), std::max(std::abs(s1.y - s2.y), std::abs(s1.z - s2.z)));
+    T d2 = std::max(std::max(std::abs(s1.w + s2.w), std::abs(s1.x + s2.x)), std::max(std::abs(s1.y + s2.y), std::abs(s1.z + s2.z)));
+    return std::min(d1, d2); });
+  // gtx shortMix / fastMix end points and dual-quaternion lerp end points
+  add_prop("p_shortmix_ends", 8, 5e-3, 1e-6, [](auto const* x) { using T = TY(x); glm::qua<T, glm::defaultp> a, b; if (!unitq(x, a) || !unitq(x + 4, b)) return T(-1);
+    auto s0 = glm::shortMix(a, b, T(0)), s1 = glm::shortMix(a, b, T(1));
+    auto d = [](glm::qua<T, glm::defaultp> const& p, glm::qua<T, glm::defaultp> const& q) { T d1 = std::max(std::max(std::abs(p.w - q.w), std::abs(p.x - q.x)), std::max(std::abs(p.y - q.y), std::abs(p.z - q.z)));
+      T d2 = std::max(std::max(std::abs(p.w + q.w), std::abs(p.x + q.x)), std::max(std::abs(p.y + q.y), std::abs(p.z + q.z))); return std::min(d1, d2); };
+    return std::max(d(s0, a), d(s1, b)); });
   add_unit("slerp", 9, 4, [](auto const* x, auto* o) { stq(o, glm::slerp(ldq(x), ldq(x + 4), x[8])); });
   add_unit("qmix", 9, 4, [](auto const* x, auto* o) { stq(o, glm::mix(ldq(x), ldq(x + 4), x[8])); });
   add_unit("qlerp", 9, 4, [](auto const* x, auto* o) { stq(o, glm::lerp(ldq(x), ldq(x + 4), x[8])); });
